@@ -187,6 +187,16 @@ impl<'l, T: Debug> LocalQueue<'l, T> {
             .is_ok()
     }
 
+    /// position of this local queue among the shared queue's local queues (verification hooks)
+    #[cfg(open_coroutine_verif)]
+    fn verif_index(&self) -> usize {
+        self.shared
+            .local_queues
+            .iter()
+            .position(|q| std::ptr::eq(q, self.queue))
+            .unwrap_or(usize::MAX)
+    }
+
     fn release_lock(&self) {
         self.stealing.store(false, Ordering::Release);
     }
@@ -214,8 +224,20 @@ impl<'l, T: Debug> LocalQueue<'l, T> {
         if let Err(item) = self.queue.push(item) {
             //把本地队列的一半放到全局队列
             let count = self.len() / 2;
+            #[cfg(open_coroutine_verif)]
+            crate::common::verif::emit(|| {
+                format!(r#""ev":"spill_b","q":{},"count":{count}"#, self.verif_index())
+            });
             for _ in 0..count {
                 if let Some(item) = self.queue.pop() {
+                    #[cfg(open_coroutine_verif)]
+                    crate::common::verif::emit(|| {
+                        format!(
+                            r#""ev":"spill","q":{},"prio":0,"item":{:?}"#,
+                            self.verif_index(),
+                            format!("{item:?}")
+                        )
+                    });
                     self.shared.push(item);
                 }
             }
@@ -323,6 +345,14 @@ impl<'l, T: Debug> LocalQueue<'l, T> {
                         })
                         .is_ok()
                     {
+                        #[cfg(open_coroutine_verif)]
+                        crate::common::verif::emit(|| {
+                            format!(
+                                r#""ev":"steal","thief":{},"victim":{i},"prio":0,"n":{}"#,
+                                self.verif_index(),
+                                self.len()
+                            )
+                        });
                         self.release_lock();
                         return self.queue.pop();
                     }
